@@ -322,6 +322,33 @@ pub fn eval_image(img: &Path, rec: &Recorded, lo: usize, hi: usize, rng: &mut Rn
 		}
 	} else {
 		db.close();
+		// whatever recovery made of the logs, it is final: a clean restart right after it must
+		// show the same state (a log that recovery rejected must not be applied by a later open)
+		crate::child::phase("reopen after recovery");
+		match catch(|| Db::open(&opts)) {
+			Ok(Ok(d2)) => {
+				let d2 = dbutil::Handle::new(d2);
+				match catch(|| find_prefix(&d2, rec, hi)) {
+					Ok((m2, n, why2)) => {
+						evals += n;
+						if m2 != Some(m) {
+							return Verdict {
+								m: Some(m),
+								evals,
+								fail: Some((
+									"failure=state_changed_by_second_open".into(),
+									format!("recovery gave prefix {}; after a clean close the next open shows {} {}", m, m2.map_or("no prefix state at all;".to_string(), |x| format!("prefix {}", x)), why2),
+								)),
+							}
+						}
+					},
+					Err(p) => return Verdict { m: Some(m), evals, fail: Some((format!("failure=read_panic;site={}", panic_site(&p)), format!("panic while reading after the second open: {}", p))) },
+				}
+				d2.close();
+			},
+			Ok(Err(e)) => return Verdict { m: Some(m), evals, fail: Some(("failure=open_error".into(), format!("second open after recovery failed: {}", e))) },
+			Err(p) => return Verdict { m: Some(m), evals, fail: Some((format!("failure=open_panic;site={}", panic_site(&p)), format!("second open after recovery panicked: {}", p))) },
+		}
 	}
 	Verdict { m: Some(m), evals, fail: None }
 }
